@@ -153,6 +153,10 @@ class BBAN(common.Base):
             range_ = ranges[key]
             if range_.is_empty:
                 continue
+            if len(value) > range_.length:
+                raise exceptions.InvalidStructure(
+                    f"{key.value} exceeds maximum size {range_.length}"
+                )
             bban = bban[: range_.start] + value + bban[range_.end :]
 
         return cls(country_code, bban)
